@@ -11,6 +11,7 @@ import (
 	"flag"
 	"fmt"
 	"os"
+	"runtime/debug"
 
 	"verifharness/internal/rng"
 	"verifharness/internal/sexp"
@@ -36,8 +37,18 @@ func (h *H) Case(f func(r *rng.R) sexp.Node) {
 	if h.Only >= 0 && i != h.Only {
 		return
 	}
-	n := f(h.root.Fork(uint64(i)))
-	h.w.WriteString(n.String())
+	line := func() (line string) {
+		defer func() {
+			if e := recover(); e != nil {
+				// a panic that escaped the code under test (or a harness bug): reported by ./check as
+				// an oracle failure with key "panic"; harnesses whose property is about panics catch
+				// them themselves and encode them as observations instead.
+				line = sexp.T("harness-panic", sexp.Int(i), sexp.Str(fmt.Sprint(e)), sexp.Str(string(debug.Stack()))).String()
+			}
+		}()
+		return f(h.root.Fork(uint64(i))).String()
+	}()
+	h.w.WriteString(line)
 	h.w.WriteByte('\n')
 	h.wrote++
 }
